@@ -222,7 +222,7 @@ KEY_NAMES = ["commandDown", "shiftDown", "controlDown", "optionDown", "key", "ke
              "movieFileSize", "movieFileFreeSize", "pauseState", "result", "selection", "stageBottom", "stageLeft", "stageRight",
              "stageTop", "ticks", "maxinteger", "multiSound"]
 MOVIE_NAMES = ["actorList", "itemDelimiter", "frameLabel", "updateMovieEnabled", "cpuHogTicks", "romanLingo", "traceLoad",
-               "traceLogFile", "movieName", "moviePath", "fooProp", "barProp"]
+               "traceLogFile", "movieName", "moviePath"]
 EXT_FUNCS = ["random", "length", "offset", "rect", "point", "script", "objectp", "label", "marker", "abs", "string", "value",
              "getProp", "count2", "soundBusy", "window", "birth2", "myFunc", "otherFunc"]
 EXT_CMDS = ["put", "beep", "updateStage", "puppetTempo", "installMenu", "addProp", "deleteProp", "open", "nothing", "pause",
@@ -325,12 +325,7 @@ class Gen:
             n = r.choice([0, 1, 1, 2, 3]) if f in self.handlers else r.choice([1, 1, 2, 3])
             return ["c", f] + [self.expr(env, d) for _ in range(n)]
         if c < 0.60:
-            objs = [["l", r.choice(env["locals"])], ["g", r.choice(env["globals"])]]
-            if env["params"]:
-                objs.append(["p", r.choice(env["params"])])
-            if env.get("method"):
-                objs.append("me")
-            return ["m", r.choice(objs), r.choice(METHODS)] + [self.expr(env, d) for _ in range(r.choice([0, 1, 2]))]
+            return ["m", self.receiver(env), r.choice(METHODS)] + [self.expr(env, d) for _ in range(r.choice([0, 1, 2]))]
         if c < 0.66:
             return ["li"] + [self.expr(env, d) for _ in range(r.choice([0, 1, 2, 3, 5]))]
         if c < 0.70:
@@ -368,14 +363,15 @@ class Gen:
             return ["the", "special", r.choice([12, 13, 14, 15]), self.expr(env, d)]
         return self.leaf(env, "the0")
 
-    def chunk(self, env, d, base):
-        """chunk expression, sometimes a chain (merged into one slice when granularity increases outwards-in)"""
+    def chunk(self, env, d, base, target=False):
+        """chunk expression, sometimes a chain (merged into one slice when granularity increases outwards-in);
+        put / delete / hilite targets are always a single slice"""
         r = self.rng
         kinds = ["char", "word", "item", "line"]
         n = r.choice([1, 1, 1, 2, 2, 3, 4])
         e = base
         ks = [r.choice(kinds) for _ in range(n)]
-        if r.random() < 0.7:
+        if target or r.random() < 0.7:
             ks = sorted(set(ks), key=kinds.index, reverse=True)     # line innermost ... char outermost: one slice
         for k in ks:
             a = self.expr(env, min(d, 1)) if r.random() < 0.3 else ["i", r.choice([1, 2, 3, 12, 62])]
@@ -423,9 +419,9 @@ class Gen:
         if c < 0.56:
             return self.put_stmt(env, depth)
         if c < 0.60:
-            return ["del", self.chunk(env, 1, self.put_base(env))]
+            return ["del", self.chunk(env, 1, self.put_base(env), target=True)]
         if c < 0.63:
-            return ["hil", self.chunk(env, 1, ["fld", self.index_leaf(env)]) if r.random() < 0.8 else ["fld", self.index_leaf(env)]]
+            return ["hil", self.chunk(env, 1, ["fld", self.index_leaf(env)], target=True) if r.random() < 0.8 else ["fld", self.index_leaf(env)]]
         if c < 0.88:
             if in_tell or r.random() < 0.75 or not self.handlers:
                 f = r.choice(EXT_CMDS)
@@ -434,12 +430,7 @@ class Gen:
             n = r.choice([0, 1, 1, 2, 3])
             return ["call", f] + [self.expr(env, depth) for _ in range(n)]
         if c < 0.94:
-            objs = [["l", r.choice(env["locals"])], ["g", r.choice(env["globals"])]]
-            if env["params"]:
-                objs.append(["p", r.choice(env["params"])])
-            if env.get("method"):
-                objs += ["me", "me"]
-            return ["mcall", r.choice(objs), r.choice(METHODS)] + [self.expr(env, depth) for _ in range(r.choice([0, 1, 2]))]
+            return ["mcall", self.receiver(env), r.choice(METHODS)] + [self.expr(env, depth) for _ in range(r.choice([0, 1, 2]))]
         if c < 0.96:
             return ["call", "sound", ["y", r.choice(["playFile", "fadeIn", "fadeOut", "stop", "close"])], ["i", r.choice([1, 2])]] + \
                 ([["s", S("Start")]] if r.random() < 0.3 else [])
@@ -447,14 +438,35 @@ class Gen:
             return ["call", "go", ["y", r.choice(["loop", "next", "previous"])]]
         return "exit"
 
+    def ref_global(self, env):
+        """a global referenced by name (`46 n`): normally one declared at script level; rarely one that only this handler declares
+        (the handler's own globals table names it, see feature F120)"""
+        r = self.rng
+        if self.globals_hdr and r.random() < 0.9:
+            return ["g", r.choice(self.globals_hdr)]
+        if r.random() < 0.3:
+            return ["g", r.choice(env["globals"])]
+        return None
+
+    def receiver(self, env):
+        r = self.rng
+        objs = [["l", o] for o in env["objs"]]
+        if env["params"]:
+            objs.append(["p", r.choice(env["params"])])
+        if env.get("method"):
+            objs += ["me", "me"]
+        g = self.ref_global(env)
+        if g:
+            objs.append(g)
+        return r.choice(objs)
+
     def put_base(self, env):
         r = self.rng
         c = r.random()
         if c < 0.45:
             return ["fld", self.index_leaf(env)]
-        if c < 0.8:
-            return ["l", r.choice(env["locals"])]
-        return ["g", r.choice(env["globals"])]
+        g = self.ref_global(env) if c >= 0.8 else None
+        return g or ["l", r.choice(env["locals"])]
 
     def put_stmt(self, env, depth):
         r = self.rng
@@ -465,7 +477,7 @@ class Gen:
             return ["put", mode, v, ["fld", self.expr(env, 1) if r.random() < 0.3 else self.index_leaf(env)]]
         if c < 0.45 and mode != "into":
             return ["put", mode, v, ["l", r.choice(env["locals"])]]
-        return ["put", mode, v, self.chunk(env, 1, self.put_base(env))]
+        return ["put", mode, v, self.chunk(env, 1, self.put_base(env), target=True)]
 
     def tell_stmt(self, env, depth):
         r = self.rng
@@ -477,14 +489,16 @@ class Gen:
     def env_for(self, nparams, method=False):
         r = self.rng
         params = r.sample(PARAMS, nparams)
-        return dict(params=params, locals=r.sample(LOCALS, r.choice([1, 2, 3, 5])), globals=r.sample(GLOBALS, 2),
+        locs = r.sample(LOCALS, r.choice([1, 2, 3, 5]))
+        return dict(params=params, locals=locs, objs=locs[:r.choice([1, 1, 2])], globals=r.sample(GLOBALS, 2),
                     props=list(self.props), method=method)
 
     def handler(self, name, body_fn, nparams=None):
         r = self.rng
         method = self.kind == "factory"
         env = self.env_for(r.choice([0, 1, 2, 3]) if nparams is None else nparams, method)
-        body = body_fn(env)
+        # locals used as method-call receivers are objects created first (a receiver must be a variable the text shows assigned)
+        body = [["set", ["l", o], ["c", "birth2", ["i", k + 1]]] for k, o in enumerate(env["objs"])] + body_fn(env)
         return ["method" if method else "on", name, list(env["params"])] + body
 
     def script(self, handlers):
@@ -536,11 +550,56 @@ def is_index_kept(e):
 OBJ_TABLES = {"sprite": 1, "cast": 1, "sound": 1, "video": 1, "menu": 1, "menuItem": 2}
 
 
-def features(h):
+def named_refs(body):
+    """globals referenced by name (`46 n`): method-call receivers and chunk put/delete bases; and globals read/written normally"""
+    refs, normal = set(), set()
+    def base_of(t):
+        while isinstance(t, list) and t and t[0] == "ch":
+            t = t[4]
+        return t
+    def visit(t, skip=None):
+        if not isinstance(t, list) or not t:
+            return
+        if t[0] in ("m", "mcall") and isinstance(t[1], list) and t[1][0] == "g":
+            refs.add(t[1][1])
+            for x in t[3:]:
+                visit(x)
+            return
+        if t[0] in ("put", "del"):
+            tgt = t[3] if t[0] == "put" else t[1]
+            b = base_of(tgt)
+            if isinstance(tgt, list) and tgt[0] == "ch" and isinstance(b, list) and b[0] == "g":
+                refs.add(b[1])
+                # visit everything except that base
+                def visit_ch(c):
+                    if c is b:
+                        return
+                    if isinstance(c, list) and c and c[0] == "ch":
+                        visit(c[2]); visit(c[3]); visit_ch(c[4])
+                    else:
+                        visit(c)
+                if t[0] == "put":
+                    visit(t[2])
+                visit_ch(tgt)
+                return
+        if t[0] == "g" and len(t) == 2 and isinstance(t[1], str):
+            normal.add(t[1]); return
+        for x in t:
+            visit(x)
+    for st in body:
+        visit(st)
+    return refs, normal
+
+
+def features(h, script_globals=()):
     """root-cause features of one handler tree (used by the narrow matchers of the open findings)"""
     f = set()
-    for t in walk(h):
-        if not t or not isinstance(t[0], str):
+    body = h[3:] if (isinstance(h, list) and h and h[0] in ("on", "method")) else h
+    refs, normal = named_refs(body)
+    if any(g not in script_globals and g not in normal for g in refs):
+        f.add("F120")
+    for t in walk(body):
+        if len(t) < 2 or not isinstance(t[0], str):
             continue
         tag = t[0]
         if tag == "the" and t[1] in OBJ_TABLES:
